@@ -257,6 +257,26 @@ c('DateTime::from_timestamp_micros', U,
 c('DateTime::from_timestamp_nanos', U,
   ensures="dtwf(r.datetime) && unix_secs(r.datetime) * 1_000_000_000 + r.datetime.time.frac as int == nanos as int && r.datetime.time.frac < 1_000_000_000")
 
+# deprecated NaiveDateTime forms (two of them redo the Euclidean split themselves): same contracts on the naive value
+for _k in ('from_timestamp_millis', 'from_timestamp_micros', 'from_timestamp'):
+    _n = {'from_timestamp': 'from_timestamp_opt'}.get(_k, _k)
+    c('NaiveDateTime::' + _n, U, ensures=C['DateTime::' + _k]['ensures'].replace('r.unwrap().datetime', 'r.unwrap()'))
+c('NaiveDateTime::from_timestamp_nanos', U, ensures="r.is_some(), " + C['DateTime::from_timestamp_nanos']['ensures'].replace('r.datetime', 'r.unwrap()'))
+for _k in ('timestamp', 'timestamp_millis', 'timestamp_micros', 'timestamp_nanos_opt', 'timestamp_subsec_nanos', 'timestamp_subsec_millis', 'timestamp_subsec_micros'):
+    c('NaiveDateTime::' + _k, U, requires=C['DateTime::' + _k].get('requires', '').replace('self.datetime', '*self'), ensures=C['DateTime::' + _k]['ensures'].replace('self.datetime', '(*self)'))
+# zone-generic wrappers (provided methods of TimeZone; their real default bodies are proved as free generic functions):
+# the UTC field of the result is exactly what the DateTime<Utc> constructor yields, whatever the zone
+def tz_lift(ens):
+    # r: MappedLocalTime<DateTime<Tz>>  from  r0: Option<DateTime<Utc>> contract text
+    some = ens.split(', r.is_some() ==> ')
+    cond = some[0].replace('r.is_some() <==> ', '')
+    body = some[1].replace('r.unwrap()', '(r->Single_0)')
+    return "!(r is Ambiguous), (r is Single) <==> %s, (r is Single) ==> %s" % (cond, body)
+for _k in ('from_timestamp', 'from_timestamp_millis', 'from_timestamp_micros'):
+    _name = {'from_timestamp': 'timestamp_opt', 'from_timestamp_millis': 'timestamp_millis_opt', 'from_timestamp_micros': 'timestamp_micros'}[_k]
+    c('TimeZone::' + _name, U, ensures=tz_lift(C['DateTime::' + _k]['ensures']))
+c('TimeZone::timestamp_nanos', U, ensures=C['DateTime::from_timestamp_nanos']['ensures'])
+
 # ------------------------------------------------------------------------------------------------
 # C03  day / week iterators (src/naive/date/mod.rs) -- Verus (units/iters.py)
 U = 'verus:iters'
@@ -341,6 +361,11 @@ c('NaiveWeek::checked_first_day', U, requires="dwf(self.date)",
   ensures="({ let k = %s; 0 <= k <= 6 && (r.is_some() <==> dn(self.date) - k >= DN_MIN()) && (r.is_some() ==> dwf(r.unwrap()) && dn(r.unwrap()) == dn(self.date) - k && weekday_of(dn(r.unwrap())) == wd_idx(self.start)) })" % WK)
 c('NaiveWeek::checked_last_day', U, requires="dwf(self.date)",
   ensures="({ let k = %s; (r.is_some() <==> dn(self.date) - k + 6 <= DN_MAX()) && (r.is_some() ==> dwf(r.unwrap()) && dn(r.unwrap()) == dn(self.date) - k + 6) })" % WK)
+
+c('NaiveWeek::first_day', U, requires="dwf(self.date), dn(self.date) - %s >= DN_MIN()" % WK,      # documented to panic when the first day is out of range
+  ensures="({ let k = %s; dwf(r) && dn(r) == dn(self.date) - k && weekday_of(dn(r)) == wd_idx(self.start) })" % WK)
+c('NaiveWeek::last_day', U, requires="dwf(self.date), dn(self.date) - %s + 6 <= DN_MAX()" % WK,
+  ensures="({ let k = %s; dwf(r) && dn(r) == dn(self.date) - k + 6 })" % WK)
 
 # ------------------------------------------------------------------------------------------------
 # C05/C16  transition-table lookups (src/offset/local/tz_info/timezone.rs) -- Verus (units/tz.py)
